@@ -162,8 +162,27 @@ def make_strategy(plan, obs=None):
     return C11Strategy
 
 
-def concrete(a, seed=0, strategy_cls=None, obs=None):
-    """abstract call record -> keyword arguments of research.backtest (fresh objects every time)"""
+class ArgPool:
+    """The argument objects of one process.  A researcher who calls research.backtest several times re-uses
+    what does not change: calls with the same exchange name, routes and warm-up get THE SAME candles dict,
+    warm-up dict and data_routes list (config, routes and hyperparameters are built per call).  The fingerprint of
+    every object is taken when it is created - a later change by whatever call is a change of an argument."""
+
+    def __init__(self, seed):
+        self.seed = seed
+        self.objs = {}
+        self.created = {}
+
+    def get(self, key, make):
+        if key not in self.objs:
+            self.objs[key] = make()
+            self.created[key] = fingerprint(self.objs[key])
+        return self.objs[key], self.created[key]
+
+
+def concrete(a, pool, strategy_cls=None, obs=None, hp=None):
+    """abstract call record -> (keyword arguments of research.backtest, fingerprints of the argument objects at
+    their creation)"""
     out = a.get('out', 'ok')
     ex = EXN[a['ex']]
     cls = strategy_cls or make_strategy({'out': out}, obs)
@@ -176,27 +195,38 @@ def concrete(a, seed=0, strategy_cls=None, obs=None):
     routes = [{'exchange': ex, 'strategy': cls, 'symbol': s, 'timeframe': tf} for s, tf in trading]
     if out == 'routes':
         routes.append(dict(routes[0]))
-    data_routes = [{'exchange': ex, 'symbol': s, 'timeframe': tf} for s, tf in data]
     symbols = []
     for s, _ in trading + data:
         if s not in symbols:
             symbols.append(s)
     nwarm = WARM[a['warm']][1]
-    candles, warm = {}, ({} if nwarm else None)
-    for j, s in enumerate(symbols):
-        sd = seed * 7919 + j * 131 + 17
-        spacing = 2 * MIN if out == 'spacing' else MIN
-        full = walk(nwarm + N_MIN, sd, start=100 + 40 * j, ts0=T0 - nwarm * MIN, spacing=spacing)
-        candles['%s-%s' % (ex, s)] = {'exchange': ex, 'symbol': s, 'candles': full[nwarm:].copy()}
-        if nwarm:
-            w = full[:nwarm].copy()
-            if out == 'warmup':
-                w = w[:0]
-            warm['%s-%s' % (ex, s)] = {'exchange': ex, 'symbol': s, 'candles': w}
-    if out == 'warmup' and not nwarm:      # no warm-up in this configuration: pass an empty one all the same
-        warm = {'%s-%s' % (ex, s): {'exchange': ex, 'symbol': s, 'candles': np.zeros((0, 6))} for s in symbols}
-    return dict(config=config, routes=routes, data_routes=data_routes, candles=candles, warmup_candles=warm,
-                hyperparameters={'every': 9}, fast_mode=(a['sim'] == 'fast'))
+    spacing = 2 * MIN if out == 'spacing' else MIN
+
+    def series(j):
+        return walk(nwarm + N_MIN, pool.seed * 7919 + j * 131 + 17, start=100 + 40 * j, ts0=T0 - nwarm * MIN, spacing=spacing)
+
+    def mk_candles():
+        return {'%s-%s' % (ex, s): {'exchange': ex, 'symbol': s, 'candles': series(j)[nwarm:].copy()}
+                for j, s in enumerate(symbols)}
+
+    def mk_warm():
+        if out == 'warmup':               # an empty warm-up series (also when the configuration has no warm-up)
+            return {'%s-%s' % (ex, s): {'exchange': ex, 'symbol': s, 'candles': np.zeros((0, 6))} for s in symbols}
+        if not nwarm:
+            return None
+        return {'%s-%s' % (ex, s): {'exchange': ex, 'symbol': s, 'candles': series(j)[:nwarm].copy()}
+                for j, s in enumerate(symbols)}
+    kw, created = {}, {}
+    kw['candles'], created['candles'] = pool.get(('candles', ex, a['rt'], a['warm'], spacing), mk_candles)
+    kw['warmup_candles'], created['warmup_candles'] = pool.get(('warm', ex, a['rt'], a['warm'], spacing, out == 'warmup'), mk_warm)
+    kw['data_routes'], created['data_routes'] = pool.get(
+        ('data', ex, a['rt']), lambda: [{'exchange': ex, 'symbol': s, 'timeframe': tf} for s, tf in data])
+    n = len(pool.objs)
+    kw['config'], created['config'] = pool.get(('config', n), lambda: config)
+    kw['routes'], created['routes'] = pool.get(('routes', n), lambda: routes)
+    kw['hyperparameters'], created['hyperparameters'] = pool.get(('hp', n), lambda: dict(hp or {'every': 9}))
+    kw['fast_mode'] = (a['sim'] == 'fast')
+    return kw, created
 
 
 # ---------------------------------------------------------------- fingerprints (deep equality of arguments)
@@ -239,15 +269,15 @@ def call(kw):
                     hyperparameters=kw['hyperparameters'], fast_mode=kw['fast_mode'])
 
 
-def run_history_call(a, seed):
-    """an earlier session: plain research.backtest, nothing instrumented.  Returns the exception class or 'none'."""
-    kw = concrete(a, seed=seed)
-    kw['hyperparameters'] = {'every': 9, 'tag': 7}      # an extra hyperparameter the probe does not pass
+def run_history_call(a, pool):
+    """an earlier session: plain research.backtest, nothing instrumented.  Returns (exception class or 'none',
+    keyword arguments, fingerprints at creation)."""
+    kw, created = concrete(a, pool, hp={'every': 9, 'tag': 7})     # an extra hyperparameter the probe does not pass
     try:
         call(kw)
-        return 'none'
+        return 'none', kw, created
     except BaseException as e:           # noqa - whatever the session raises, the process goes on (as a notebook would)
-        return type(e).__name__
+        return type(e).__name__, kw, created
 
 
 def r(x):
@@ -290,12 +320,11 @@ def capture(final):
     final.update(trades=trades, orders=orders, balances=bal)
 
 
-def run_probe(a, seed):
+def run_probe(a, pool):
     """the probe call, instrumented: what the strategy saw, orders/trades/balances before the final reset,
     the returned value, and fingerprints of the argument objects before and after."""
     obs, final = {}, {}
-    kw = concrete(a, seed=seed, obs=obs)
-    before = fingerprints(kw)
+    kw, before = concrete(a, pool, obs=obs)
     from jesse.modes import backtest_mode as bm
     orig = bm._generate_outputs
 
@@ -338,11 +367,17 @@ def run_item(item):
     pre = sorted(k for k in jh.CACHED_CONFIG if k.startswith(('env.exchanges', 'env.data', 'app.')))
     if pre or 'jesse.services.api' in sys.modules:
         return {'dirty_parent': pre + (['api'] if 'jesse.services.api' in sys.modules else [])}
-    excs = []
+    pool = ArgPool(item.get('seed', 0))
+    excs, calls = [], []
     for i, a in enumerate(item['hist']):
-        excs.append(run_history_call(a, seed=1000 + 37 * i + item.get('seed', 0)))
-    rec = run_probe(item['probe'], seed=item.get('seed', 0))
+        e, kw, created = run_history_call(a, pool)
+        excs.append(e)
+        calls.append((kw, created))
+    rec = run_probe(item['probe'], pool)
     rec['hist_exc'] = excs
+    # the arguments of the earlier calls, looked at again now that everything has run
+    rec['hist_args_before'] = ['%d:%s=%s' % (i, k, c[k]) for i, (kw, c) in enumerate(calls) for k in ARG_NAMES]
+    rec['hist_args_after'] = ['%d:%s=%s' % (i, k, fingerprint(kw[k])) for i, (kw, c) in enumerate(calls) for k in ARG_NAMES]
     return rec
 
 
